@@ -43,8 +43,107 @@ def run(ck):
     ck.stream("buffered-conn", cases, None, "C13_bconn", "C13_bconn_ok", compare=False,
               nontrivial=lambda c: sum(1 for o in c[1] if o[0] == 0 and len(o[1]) > 0) >= 2,
               sig=lambda c, e, o: "buffered-conn-order")
-    return ck.finish(rule="Write/Flush scripts on buffered.Conn over a scripted socket: write sizes 0..64, around the 8 KiB buffer "
+    session_streams(ck)
+    return ck.finish(rule="(1) Write/Flush scripts on buffered.Conn over a scripted socket: write sizes 0..64, around the 8 KiB buffer "
                           "(+-80), up to 3x the buffer, flush rates 1..1000/s so that both limiter verdicts occur; "
-                          "non-trivial = at least two non-empty writes",
+                          "non-trivial = at least two non-empty writes. (2) a real playing RTSP session (TCP interleaved, every 4th "
+                          "ws-rtsp) on a scripted socket under the schedule controller: 1-4 published RTP packets (video/audio, 1..700 "
+                          "bytes, some carrying response-/frame-like bytes) against 1-4 requests (OPTIONS, PLAY, GET_PARAMETER, PAUSE); "
+                          "schedules: media parked between frame prefix and payload then a request; responder parked inside the socket "
+                          "write of its response/Flush then a packet; random interleavings of publish / request / step-media / step-responder "
+                          "(every socket write and the prefix/payload gap are schedule points); the proved oracle ok_sink is applied to the "
+                          "client's bytes against the intended frames and responses; non-trivial = at least one packet and one request",
                      trusted=["net.Conn.Write writes the whole slice or returns an error (its contract)",
-                              "the rate limiter's verdict is an arbitrary boolean per call (the theorem quantifies over it)"])
+                              "the rate limiter's verdict is an arbitrary boolean per call (the theorem quantifies over it)",
+                              "schedule controller harness/sched: a goroutine parked at a point or blocked on the lock does not run",
+                              "ws-rtsp: one Write on the websocket.Conn is one WebSocket message (gorilla NextWriter/Close in network/websocket)",
+                              "intended response bytes = the server's own answer to the same request taken while nothing else writes, CSeq substituted"])
+
+
+# ---------------------------------------------------------------- session level: a real playing session under the schedule controller
+from vlib import vs, vparse, run_driver, Broken
+
+def _vpkt(rng, seq, n):
+    return [0, bytes([0x80, 96, seq >> 8, seq & 255, 0, 0, 0, seq & 255, 1, 2, 3, 4, 0x41]) + bytes(rng.randrange(256) for _ in range(n))]
+
+def _apkt(rng, seq, n):
+    return [2, bytes([0x80, 97, seq >> 8, seq & 255, 0, 0, 0, seq & 255, 5, 6, 7, 8, 0x00, 0x10, (n >> 5) & 255, (n << 3) & 255])
+            + bytes(rng.randrange(256) for _ in range(n))]
+
+def gen_session(rng, ws, scenario):
+    npk = rng.randint(1, 4)
+    pk = []
+    for i in range(npk):
+        n = rng.choice([1, 8, 40, 120, 300, 600]) if rng.random() < 0.8 else rng.randint(1, 700)
+        body = (_vpkt if rng.random() < 0.7 else _apkt)(rng, i + 1, n)
+        if rng.random() < 0.25:
+            # payload bytes that look like the other kind of message, so that a torn stream mis-parses visibly
+            body[1] = body[1][:16] + b"RTSP/1.0 200 OK\r\nCSeq: 1\r\n\r\n$\x00\x00\x05" + body[1][16:]
+            if body[0] == 2:   # keep the AU header consistent
+                n2 = len(body[1]) - 16
+                body[1] = body[1][:14] + bytes([(n2 >> 5) & 255, (n2 << 3) & 255]) + body[1][16:]
+        pk.append(body)
+    rq = [[rng.choice([0, 0, 4, 4, 8, 7]), str(100 + i)] for i in range(rng.randint(1, 4))]
+    sched = [rng.randrange(64) for _ in range(rng.randint(0, 80))] if scenario == 2 else \
+            [rng.randrange(64) for _ in range(rng.randint(0, 12))]
+    return [ws, scenario, pk, rq, sched, rng.choice([0, 1, 2])]
+
+def session_streams(ck):
+    rng = ck.rng
+    n = 600 if ck.thorough else 60
+    cases = []
+    for i in range(n):
+        ws = 1 if i % 4 == 3 else 0
+        cases.append(gen_session(rng, ws, i % 3))
+    obs = ck.stream("session-sched", cases, None, "C13_session", None, compare=False,
+                    nontrivial=lambda c: len(c[2]) >= 1 and len(c[3]) >= 1, sig=lambda c, e, o: "session")
+    if len(obs) != len(cases):
+        return
+    lines, idx = [], []
+    forced = {0: 0, 1: 0}
+    for i, (c, o) in enumerate(zip(cases, obs)):
+        v = vparse(o)
+        if not (isinstance(v, list) and len(v) >= 8 and isinstance(v[0], bytes) and not v[0].startswith(b"!")
+                and isinstance(v[1], list)):
+            ck.fail("session-sched", "session-harness", vs(c), observed=o, note="harness could not run the case")
+            continue
+        sink, frames, resps, parsed, overlap, expect, writes, note = v[:8]
+        # the frames the harness says were published must be the ones of the case, with the SETUP's channel map
+        want = [[b"$" + bytes([p[0], len(p[1]) >> 8, len(p[1]) & 255]), p[1]] for p in c[2]]
+        if frames != want or len(resps) != len(c[3]) + 1:
+            ck.fail("session-sched", "session-harness", vs(c), observed=o, note="intended messages differ from the case")
+            continue
+        lines.append("((%s %s) (%s))" % (vs(frames), vs(resps), vs(sink)))
+        idx.append(i)
+        # the real readers split the client's bytes into exactly these messages
+        if parsed != [len(frames), len(resps), 1]:
+            ck.fail("session-sched", "session-reader", vs(c), observed=o,
+                    note="the rtsp/rtp readers found %r, sent %d frames and %d responses" % (parsed, len(frames), len(resps)))
+        if overlap:
+            ck.fail("session-sched", "session-overlap", vs(c), observed=o,
+                    note="both writers were inside their write sections at the same time")
+        if expect == 0 and not c[0]:
+            ck.fail("session-sched", "session-not-blocked", vs(c), observed=o,
+                    note="the second writer was not blocked while the first was inside its message")
+        if expect == 1:
+            forced[c[1]] = forced.get(c[1], 0) + 1
+        if c[0]:
+            # ws-rtsp: every socket write (= WebSocket message) is exactly one complete message
+            whole = set(b"".join(m) for m in frames) | set(b"".join(m) for m in resps)
+            if any(w not in whole for w in writes) or len(writes) != len(frames) + len(resps):
+                ck.fail("session-sched", "session-ws-message", vs(c), observed=o,
+                        note="a WebSocket message is not exactly one complete response or frame")
+    try:
+        oks = run_driver(ck.prop, "C13_sink_ok", lines)
+    except Broken as b:
+        ck.broken.append(b)
+        return
+    for i, k in zip(idx, oks):
+        ck.count(1, "sink" + str(i))
+        if k != "1":
+            ck.fail("session-sched", "session-torn", vs(cases[i]), observed=obs[i],
+                    note="the client's bytes are not an order-preserving interleaving of the complete frames and responses")
+    ck.extra.update({"session_forced_prefix_overlaps": forced.get(0, 0), "session_forced_response_overlaps": forced.get(1, 0)})
+    if forced.get(0, 0) < 3 or forced.get(1, 0) < 3:
+        ck.broken.append(Broken("C13 session schedules no longer force the two writers to meet (prefix: %d, response: %d)"
+                                % (forced.get(0, 0), forced.get(1, 0))))
